@@ -35,7 +35,7 @@
 //!  cdn   cfg {servers:[{h,prio,beh}..]}   one loopback HTTP/1.1 mock per server (real sockets, real clock), beh one of
 //!            ok206 (honours Range) | ok200 (ignores Range, whole resource) | h404 | h429 | h500 | h503 | close (no answer)
 //!        ops  get {range:[s,e]|[]}                  ReqwestHttpClient::get_cdn_content over the servers
-//!                   -> res {kind:"Ok",body:hex} | {kind:"Err",err[,server]}; obs {contacted:[h..] in order of arrival, hdr_ok}
+//!                   -> res {kind:"Ok",body:[byte..],len} | {kind:"Err",err[,server]}; obs {contacted:[h..] in order of arrival, hdr_ok}
 //!        The resource is the 32 bytes 00 01 .. 1f.
 //!
 //! Events (judged by spec/trace/T_Streaming.tla; nothing is decided here):
@@ -745,7 +745,7 @@ fn run_cdn(p: &Value, em: &Emit) {
         hits.lock().expect("hits").clear();
         let r = guarded(|| rt.block_on(client.get_cdn_content("wow", ContentType::Data, "0123456789abcdef0123456789abcdef", range, false)));
         ev.insert("res".into(), match r {
-            Ok(Ok(b)) => json!({"kind": "Ok", "body": hex(&b[..b.len().min(64)]), "len": b.len()}),
+            Ok(Ok(b)) => json!({"kind": "Ok", "body": b.iter().take(64).map(|x| u64::from(*x)).collect::<Vec<_>>(), "len": b.len()}),
             Ok(Err(e)) => {
                 let server = match &e {
                     StreamingError::CdnFailover { server, .. } => names.get(server).cloned().unwrap_or_else(|| "?".into()),
